@@ -45,6 +45,8 @@ def variant_strategy(i, n, versioned, shallow_ok=True):
                  st.fixed_dictionaries({"k": st.just("catch"), "callee": st.sampled_from(callees), "add": st.integers(0, 3)})]
     if len(callees) >= 2:
         opts.append(st.fixed_dictionaries({"k": st.just("call2"), "callees": st.lists(st.sampled_from(callees), min_size=2, max_size=2)}))
+        # both callees get the same argument: common calls beneath them are duplicates within the execution
+        opts.append(st.fixed_dictionaries({"k": st.just("call2s"), "callees": st.lists(st.sampled_from(callees), min_size=2, max_size=2)}))
     return st.one_of(opts)
 
 
